@@ -47,3 +47,4 @@ CONSTANTS
  BadFrames = {}
  SendWhileDisc = FALSE
  PeerWhileDisc = FALSE
+ LateFrames = FALSE
